@@ -332,6 +332,10 @@ pub fn install_recording_signer() {
 	// balance predictor includes the peer's not yet committed HTLCs and reports an overdraft although every
 	// commitment actually signed is sound; release builds report zero limits instead of panicking.
 	vcore::tolerate_panic("some channel balance has been overdrawn", "obs:list_channels-overdrawn-debug-assert");
+	// `ChannelManager::read` debug-asserts that a `FreeDuplicateClaimImmediately` completion action is never found
+	// in the serialized queue; a manager written while a duplicate claim's monitor update is in flight contains
+	// one. The code path after the assertion handles it (nothing to do), release builds load normally.
+	vcore::tolerate_panic("Non-event-generating channel freeing should not appear in our queue", "obs:manager-read-debug-assert-free-duplicate-claim");
 }
 
 // -------------------------------------------------------------------------------------------------
